@@ -53,6 +53,7 @@ enum RetryStrategyStage {
     #[default]
     Init,
     Tag,
+    TagExtant,
     AfterTag,
     InBody,
     Slot(RetryStrategyField),
@@ -173,13 +174,25 @@ impl Recognizer for RetryStrategyRecognizer {
                 }
             }
             RetryStrategyStage::Tag => match input {
-                ReadEvent::Extant => None,
+                ReadEvent::Extant => {
+                    // At most one empty item is permitted in the tag attribute.
+                    self.stage = RetryStrategyStage::TagExtant;
+                    None
+                }
                 ReadEvent::EndAttribute => {
                     self.stage = RetryStrategyStage::AfterTag;
                     None
                 }
                 ow => Some(Err(ow.kind_error(ExpectedEvent::EndOfAttribute))),
             },
+            RetryStrategyStage::TagExtant => {
+                if matches!(&input, ReadEvent::EndAttribute) {
+                    self.stage = RetryStrategyStage::AfterTag;
+                    None
+                } else {
+                    Some(Err(input.kind_error(ExpectedEvent::EndOfAttribute)))
+                }
+            }
             RetryStrategyStage::AfterTag => {
                 if matches!(&input, ReadEvent::StartBody) {
                     self.stage = RetryStrategyStage::InBody;
@@ -461,6 +474,7 @@ enum DurationStage {
     #[default]
     Init,
     Tag,
+    TagExtant,
     AfterTag,
     InBody,
     Slot(DurationField),
@@ -523,13 +537,25 @@ impl Recognizer for DurationRecognizer {
                 }
             }
             DurationStage::Tag => match input {
-                ReadEvent::Extant => None,
+                ReadEvent::Extant => {
+                    // At most one empty item is permitted in the tag attribute.
+                    self.stage = DurationStage::TagExtant;
+                    None
+                }
                 ReadEvent::EndAttribute => {
                     self.stage = DurationStage::AfterTag;
                     None
                 }
                 ow => Some(Err(ow.kind_error(ExpectedEvent::EndOfAttribute))),
             },
+            DurationStage::TagExtant => {
+                if matches!(&input, ReadEvent::EndAttribute) {
+                    self.stage = DurationStage::AfterTag;
+                    None
+                } else {
+                    Some(Err(input.kind_error(ExpectedEvent::EndOfAttribute)))
+                }
+            }
             DurationStage::AfterTag => {
                 if matches!(&input, ReadEvent::StartBody) {
                     self.stage = DurationStage::InBody;
